@@ -127,6 +127,7 @@ def run(model, rep):
     from . import rename_e2e, hoist_e2e
     rep.rule('C04.E2E', 'renaming end to end on probe modules: names no function scope binds, attributes, keyword names, imported names, preserved names keep their spelling; module-level additions carry the underscore')
     rename_e2e.run(model, rep, 'C04.E2E')
+    rename_e2e.idioms(model, rep, 'C04.E2E')
     rep.rule('C04.KEEP', 'end to end, both renaming options on: class attributes, system names, names used but never bound, roots of dotted imports, lambda parameters, super keep their spelling')
     keep = {n: why for (_sc, n), (pin, _res, why) in PIN_EXPECT.items() if pin and n not in ('print', 'object')}
     rename_e2e.keep_names(model, rep, 'C04.KEEP', 'pin probe', PIN_PROBE, set(keep), keep)
